@@ -196,7 +196,7 @@ CHECKS = {
                        "flight is left queued, running with a dead process (pid in _jobinfo as the job monitor records it), dead after writing _outs, killed with the error recorded by its monitor, finished without mrp having noticed, or alive "
                        "(it finishes after the restart); the stale _lock is removed and a new Pipestance is attached with the same invocation (Reset + RestartLocalJobs, what mrp does).  Oracle: "
                        "the re-attach is accepted, the run completes, the final outputs equal the reference model's, no job whose completion was recorded before an interruption is handed to the "
-                       "job manager again, every job still receives the arguments the model predicts, and the outputs record after the final cleanup equals that of an undisturbed run. Exploration."),
+                       "job manager again, every job still receives the arguments the model predicts, and the outputs record after the final cleanup equals that of an undisturbed run. With real processes: SIGTERM / SIGINT / SIGKILL (of mrp or of its whole process group) after a generated number of job starts, and crash points placed by system call count - mrp runs under strace, which delivers SIGKILL when one of its threads makes its n-th file-system or write call (n generated, 1-3 crashes in a row), so the kill falls between any two file-system effects of mrp, incl. during the final cleanup and post-processing; then mrp is restarted without the tracer. Exploration."),
         "level_note": ("E1 decides the re-attach logic at the granularity of harness actions; the E2 unit (TestE2Interrupt) sends SIGTERM / SIGINT / SIGKILL to the real mrp (or its process "
                        "group) after a generated number of job starts and restarts it: lock released after a handled signal, restart completes, outputs equal the model's, no job with a "
                        "_complete marker runs again.  Crash points at system-call granularity (strace injection) are not built."),
@@ -204,8 +204,10 @@ CHECKS = {
                  "classes: fate of in-flight jobs, number of interruptions, during-cleanup / after-cleanup."),
         "assumptions": _SEM_ASSUME + ["a job that is running records its pid in _jobinfo and the job manager removes _queued_locally when it starts the process, as the local job manager and mrjob do"],
         "units": [U("props/run", "TestInterrupt", (800, 10), (15000, 10)),
-                  U("props/run", "TestE2Interrupt", (20, 6), (600, 8))],
-        "floors": {"quick": {"inside-run": 1500, "fate:queued": 300, "fate:dead-running": 300, "fate:dead-after-outs": 300, "fate:killed-with-error": 300, "fate:finished-unnoticed": 300, "fate:alive": 300, "fate:alive-after-outs": 300, "fate:during-cleanup": 300, "fate:after-cleanup": 300, "e2": 80, "signal:TERM": 8, "signal:INT": 8, "signal:KILL": 8}},
+                  U("props/run", "TestE2Interrupt", (20, 6), (600, 8)),
+                  U("props/run", "TestE2CrashPoints", (14, 6), (400, 8))],
+        "floors": {"quick": {"inside-run": 1500, "fate:queued": 300, "fate:dead-running": 300, "fate:dead-after-outs": 300, "fate:killed-with-error": 300, "fate:finished-unnoticed": 300, "fate:alive": 300, "fate:alive-after-outs": 300, "fate:during-cleanup": 300, "fate:after-cleanup": 300, "e2": 80, "signal:TERM": 8, "signal:INT": 8, "signal:KILL": 8,
+                             "e2-crash-point": 60, "crash:inside-run": 8, "crash:after-last-completion": 8}},
     },
     "C06": {
         "level": "exploration",
